@@ -31,7 +31,7 @@ type licmp6 struct{}
 
 func init() { register("Licmp6", licmp6{}) }
 
-var licmp6Kinds = []string{"hdr", "rs", "ra", "ns", "na", "rd", "opts"}
+var licmp6Kinds = []string{"hdr", "rs", "ra", "ns", "na", "rd", "opts", "echo"}
 
 func licmp6HdrLen(k string) int {
 	switch k {
@@ -43,7 +43,7 @@ func licmp6HdrLen(k string) int {
 		return 20
 	case "rd":
 		return 36
-	case "hdr":
+	case "hdr", "echo":
 		return 4
 	}
 	return 0
@@ -59,6 +59,7 @@ type licmp6Obj struct {
 	na   *layers.ICMPv6NeighborAdvertisement
 	rd   *layers.ICMPv6Redirect
 	opts *layers.ICMPv6Options
+	echo *layers.ICMPv6Echo
 }
 
 func licmp6New(k string) *licmp6Obj {
@@ -78,6 +79,8 @@ func licmp6New(k string) *licmp6Obj {
 		o.rd = &layers.ICMPv6Redirect{}
 	case "opts":
 		o.opts = &layers.ICMPv6Options{}
+	case "echo":
+		o.echo = &layers.ICMPv6Echo{}
 	default:
 		panic("bad kind " + k)
 	}
@@ -98,6 +101,8 @@ func (o *licmp6Obj) decode(data []byte, df gopacket.DecodeFeedback) error {
 		return o.na.DecodeFromBytes(data, df)
 	case "rd":
 		return o.rd.DecodeFromBytes(data, df)
+	case "echo":
+		return o.echo.DecodeFromBytes(data, df)
 	}
 	return o.opts.DecodeFromBytes(data, df)
 }
@@ -116,6 +121,8 @@ func (o *licmp6Obj) serializable() gopacket.SerializableLayer {
 		return o.na
 	case "rd":
 		return o.rd
+	case "echo":
+		return o.echo
 	}
 	return licmp6OptsLayer{o.opts}
 }
@@ -142,6 +149,8 @@ func (o *licmp6Obj) layer() gopacket.Layer {
 		return o.na
 	case "rd":
 		return o.rd
+	case "echo":
+		return o.echo
 	}
 	return nil
 }
@@ -188,6 +197,8 @@ func (o *licmp6Obj) fields() string {
 		return fmt.Sprintf("flags=%d;tgt=%s;opts=%s", o.na.Flags, n6hex(o.na.TargetAddress), licmp6OptsStr(o.na.Options))
 	case "rd":
 		return fmt.Sprintf("tgt=%s;dst=%s;opts=%s", n6hex(o.rd.TargetAddress), n6hex(o.rd.DestinationAddress), licmp6OptsStr(o.rd.Options))
+	case "echo":
+		return fmt.Sprintf("id=%d;seq=%d", o.echo.Identifier, o.echo.SeqNumber)
 	}
 	return "opts=" + licmp6OptsStr(*o.opts)
 }
@@ -206,6 +217,8 @@ func (o *licmp6Obj) base() (c, p []byte) {
 		return o.na.Contents, o.na.Payload
 	case "rd":
 		return o.rd.Contents, o.rd.Payload
+	case "echo":
+		return o.echo.Contents, o.echo.Payload
 	}
 	return nil, nil
 }
@@ -231,6 +244,8 @@ func (o *licmp6Obj) state() string {
 		next = int(o.na.NextLayerType())
 	case "rd":
 		next = int(o.rd.NextLayerType())
+	case "echo":
+		next = int(o.echo.NextLayerType())
 	}
 	return fmt.Sprintf("%s;c=%s;p=%s;next=%d", s, n6hex(c), n6hex(p), next)
 }
@@ -290,6 +305,10 @@ func licmp6Build(k, fields string) *licmp6Obj {
 	if k == "hdr" {
 		o.hdr.TypeCode = layers.ICMPv6TypeCode(n6atoi(f[0]))
 		o.hdr.Checksum = uint16(n6atoi(f[1]))
+		return o
+	}
+	if k == "echo" {
+		o.echo.Identifier, o.echo.SeqNumber = uint16(n6atoi(f[0])), uint16(n6atoi(f[1]))
 		return o
 	}
 	hop, flags, life, reach, retrans := n6atoi(f[0]), n6atoi(f[1]), n6atoi(f[2]), n6atoi(f[3]), n6atoi(f[4])
@@ -457,11 +476,11 @@ func (licmp6) Run(c Case) Result {
 			if first == "ok" && scls == "err" && (k != "hdr" || licmp6PHValid(ph)) {
 				res.Oracle = append(res.Oracle, n6oracle("C06:serialize-error", "%s SerializeTo fails on a decoded / in-range value", k))
 			}
-			inScope := first == "ok" && scls == "ok" && (k == "hdr" || len(payload) == 0)
+			inScope := first == "ok" && scls == "ok" && (k == "hdr" || k == "echo" || len(payload) == 0)
 			if inScope {
 				_, p2 := o2.base()
 				wantP := payload
-				if k != "hdr" {
+				if k != "hdr" && k != "echo" {
 					wantP = nil
 				}
 				if cls2 != "ok" || df2.t || o2.fields() != o.fields() || string(p2) != string(wantP) {
@@ -498,7 +517,7 @@ func (licmp6) Run(c Case) Result {
 
 // tags computed from the input bytes: extreme option length bytes
 func licmp6DataTags(k string, data []byte, tags map[string]bool) {
-	if k == "hdr" {
+	if k == "hdr" || k == "echo" {
 		return
 	}
 	off := licmp6HdrLen(k)
@@ -548,6 +567,9 @@ func licmp6ValidBody(rng *rand.Rand, k string, nopts int) []byte {
 		copy(b, []byte{0, 0, 0, 0})
 	case "na":
 		b[1], b[2], b[3] = 0, 0, 0
+	}
+	if k == "echo" {
+		return append(b, n6randBytes(rng, n6pick(rng, 0, 1, 8, 33))...)
 	}
 	if k == "hdr" {
 		b[0] = byte(n6pick(rng, 128, 129, 133, 134, 135, 136, 137, 130, 131, 132, 143, 1, 2, 3, 4, rng.Intn(256)))
@@ -623,6 +645,8 @@ func (licmp6) Gen(rng *rand.Rand, tier string) []Case {
 		seedHdr = append(seedHdr, b)
 		if len(b) >= 4 {
 			switch b[0] {
+			case 128, 129:
+				seedBody["echo"] = append(seedBody["echo"], b[4:])
 			case 133:
 				seedBody["rs"] = append(seedBody["rs"], b[4:])
 			case 134:
@@ -645,6 +669,13 @@ func (licmp6) Gen(rng *rand.Rand, tier string) []Case {
 			}
 		}
 	}
+	for _, b := range seedBody["echo"] {
+		add("dec:echo," + n6hex(b))
+		add(fmt.Sprintf("rt:echo,%s,%s,-", n6hex(b), n6hex(b[min(4, len(b)):])))
+		for cut := 0; cut < min(len(b), 6); cut++ {
+			add("dec:echo," + n6hex(b[:cut]))
+		}
+	}
 	for _, k := range ndp {
 		for _, b := range seedBody[k] {
 			add(fmt.Sprintf("dec:%s,%s", k, n6hex(b)))
@@ -665,14 +696,14 @@ func (licmp6) Gen(rng *rand.Rand, tier string) []Case {
 	for _, k := range licmp6Kinds {
 		for rep := 0; rep < 2*scale; rep++ {
 			for nopts := 0; nopts <= 5; nopts++ {
-				if k == "hdr" && nopts > 1 {
+				if (k == "hdr" || k == "echo") && nopts > 1 {
 					break
 				}
 				b := licmp6ValidBody(rng, k, nopts)
 				add(fmt.Sprintf("dec:%s,%s", k, n6hex(b)))
 				ph := licmp6ValidPH(rng)
 				pl := []byte(nil)
-				if k == "hdr" {
+				if k == "hdr" || k == "echo" {
 					pl = licmp6Payload(rng)
 				} else if rng.Intn(6) == 0 {
 					pl = licmp6Payload(rng)
@@ -688,7 +719,7 @@ func (licmp6) Gen(rng *rand.Rand, tier string) []Case {
 					}
 				}
 				// option length bytes forced to 0, 1, max, off by one
-				if k != "hdr" {
+				if k != "hdr" && k != "echo" {
 					off := licmp6HdrLen(k)
 					for off+1 < len(b) {
 						l := int(b[off+1])
@@ -744,6 +775,12 @@ func (licmp6) Gen(rng *rand.Rand, tier string) []Case {
 	// values built from public fields
 	for _, k := range licmp6Kinds {
 		for rep := 0; rep < 8*scale; rep++ {
+			if k == "echo" {
+				f := fmt.Sprintf("%d.%d", rng.Intn(65536), rng.Intn(65536))
+				add(fmt.Sprintf("nrt:echo,%s,-,%s", n6hex(licmp6Payload(rng)), f))
+				add(fmt.Sprintf("nser:echo,%d%d%d,%s,-,%s", rng.Intn(2), rng.Intn(2), rng.Intn(3), n6hex(licmp6Payload(rng)), f))
+				continue
+			}
 			if k == "hdr" {
 				f := fmt.Sprintf("%d.%d", rng.Intn(65536), rng.Intn(65536))
 				add(fmt.Sprintf("nrt:hdr,%s,%s,%s", n6hex(licmp6Payload(rng)), licmp6ValidPH(rng), f))
